@@ -82,3 +82,14 @@ Fixpoint iter_position_from (p : Z -> bool) (l : list Z) (n : Z) : option Z :=
   | x :: t => if p x then Some n else iter_position_from p t (n + 1)
   end.
 Definition iter_position (p : Z -> bool) (l : list Z) : option Z := iter_position_from p l 0.
+
+(* `while c { body }` with a round bound: `st` is the tuple of the variables the body assigns;
+   the bound is part of the translator's table, and exhausting it is OutOfFuel *)
+Fixpoint while_fuel {S : Type} (fuel : nat) (st : S) (cond : S -> outcome bool) (body : S -> outcome S)
+  : outcome S :=
+  match fuel with
+  | O => OutOfFuel
+  | Datatypes.S fuel' =>
+      do c <- cond st ;
+      if (c : bool) then do st' <- body st ; while_fuel fuel' st' cond body else Val st
+  end.
